@@ -1,5 +1,6 @@
 import InfluxQL.Lemmas.Quote
 import InfluxQL.Lemmas.QuoteConv
+import InfluxQL.Lemmas.QuoteSpell
 /-!
 # C06 — quoting helpers invert the lexer and cannot be broken out of
 
@@ -16,20 +17,6 @@ open InfluxQL Gen
 theorem gen_replacers :
     qsReplacer = [(['\n'], ['\\', 'n']), (['\\'], ['\\', '\\']), (['\''], ['\\', '\''])] ∧
     qiReplacer = [(['\n'], ['\\', 'n']), (['\\'], ['\\', '\\']), (['"'], ['\\', '"'])] := by decide
-
-theorem flatMap_ext {f g : Char → List Char} (h : ∀ c, f c = g c) (s : List Char) :
-    s.flatMap f = s.flatMap g := by
-  induction s with
-  | nil => rfl
-  | cons c s ih => simp [List.flatMap_cons, h c, ih]
-
-theorem quoteString_eq (s : List Char) : quoteString s = '\'' :: (s.flatMap (esc '\'') ++ ['\'']) := by
-  unfold quoteString replaceAll
-  rw [flatMap_ext replaceChar_qs]
-
-theorem replaceAll_qi (s : List Char) : replaceAll qiReplacer s = s.flatMap (esc '"') := by
-  unfold replaceAll
-  rw [flatMap_ext replaceChar_qi]
 
 /-- Delivered form of `QuoteString(s)` followed by `k`. -/
 theorem quoteString_delivered (s k : List Char) :
@@ -75,12 +62,6 @@ theorem scan_quoteString_text (s k : List Char) (hs : Expressible s) :
 
 /-! ## Identifiers -/
 
-/-- `QuoteIdent(s)` for one segment. -/
-theorem quoteIdent_single (s : List Char) :
-    quoteIdent [s] = if identNeedsQuotes s || s == [] then '"' :: (s.flatMap (esc '"') ++ ['"']) else s.flatMap (esc '"') := by
-  simp only [quoteIdent, quoteIdentAux, quoteIdentSeg, List.length_cons, List.length_nil, replaceAll_qi]
-  cases identNeedsQuotes s <;> cases hs : (s == []) <;> simp [hs]
-
 /-- **C06 (quoted identifiers).** The double-quoted form of any expressible name scans as one
 identifier with that name and stops exactly after the closing quote; for an arbitrary name it
 is that identifier or a bad-string token. -/
@@ -92,17 +73,6 @@ theorem scan_quotedIdent_contained (r : Cursor) (s k tail : List Char)
   rw [foldCR_cons_of_ne _ _ (by decide), foldCR_escaped '"' (by decide) s k] at h
   simp only [List.cons_append, List.append_assoc] at h
   exact scan_quotedIdent r s (foldCR k ++ tail) h
-
-/-- An unescaped run of identifier characters is its own escaped and delivered form. -/
-theorem esc_identChars (s : List Char) (h : ∀ c ∈ s, isIdentChar c = true) : s.flatMap (esc '"') = s := by
-  induction s with
-  | nil => rfl
-  | cons c s ih =>
-    have hc := h c (by simp)
-    have h1 : c ≠ '\n' := by intro e; subst e; revert hc; decide
-    have h2 : c ≠ '\\' := by intro e; subst e; revert hc; decide
-    have h3 : c ≠ '"' := by intro e; subst e; revert hc; decide
-    simp [esc, h1, h2, h3, ih (fun x hx => h x (by simp [hx]))]
 
 /-- **C06 (`IdentNeedsQuotes`, soundness of `false`).** For non-empty `s`, if `IdentNeedsQuotes(s)`
 is false then `s` written bare, followed by any character that cannot continue an identifier,
